@@ -184,6 +184,24 @@ UNITS += [
 """),
 ]
 
+# ---- which indexer a backup run uses: the one that REMEMBERS what it has indexed (in-run dedup across pack boundaries)
+ARC = "crates/core/src/archiver.rs"
+UNITS += [
+    Unit(name="archiver_indexer", file=ARC, kind="block", within="pub fn new(\n        be: BE,\n        index: &'a I,",
+         anchor="let indexer = Indexer::new", block_end="let mut summary = snap.summary.take().unwrap_or_default();",
+         block_sig="fn archiver_indexer<BE: DecryptWriteBackend>(be: &BE) -> (r: SharedIndexer<BE>)",
+         block_tail="        indexer",
+         functions=["archiver::Archiver::new (construction of the indexer shared by the data and the tree packer)"],
+         rewrites=[Rw("be.clone()", "vclone_be(be)", why="backend handle clone"),
+                   Rw(r"(Indexer::\w+\([^;]*?\))\.into_shared\(\)", r"vinto_shared(\1)", regex=True, why="Indexer::into_shared -> stub wrapping the same indexer")],
+         contract="""
+    ensures
+        // the indexer of a backup run remembers every blob it has indexed (typed), starting from nothing: a chunk or tree that
+        // occurs again after its pack was written is recognised and not stored again
+        /*@backup_indexer_remembers_indexed_blobs*/ known_set(r.inner) matches Some(s) && s == Set::<(BlobType, BlobId)>::empty(),
+"""),
+]
+
 KANI = []
 META = {"not_covered": [
     "the iterator chain around the per-chunk closure of backup_reader (ChunkIter -> map -> collect, the sum of the sizes); the closure itself is the unit backup_chunk, the skip-upload decision of tree_archiver.rs backup_tree is a unit of C01 (ta_backup_tree)",
